@@ -198,6 +198,9 @@ def hand_items(ids):
                       Variant("AB", [Field("y", I("u8"))]), Variant("Ab")],
       [[("tag", "t"), ("rename_all", "lowercase")]])
     E("HUnitCollide", [Variant("First"), Variant("Second", attrs=[[("rename", "First")]]), Variant("third"), Variant("Third")], [[("rename_all", "lowercase")]])
+    # camelCase word boundaries inside "single words": a digit followed by a letter
+    S("HCamelDigits", [Field("sha256sum", T.String), Field("ipv4addr", I("u8"), [[("default", None)]]), Field("utf8mode", T.Bool), Field("crc32", I("u8")),
+                       Field("h264profile_id", T.Option(I("u8")))], [[("rename_all", "camelCase")], [("deny", None)]])
     # the empty string as an effective name (variant, tag value, key)
     E("HEmptyName", [Variant("Meter"), Variant("Dimensionless", attrs=[[("rename", "")]]), Variant("Mile")], [[("rename_all", "lowercase")]])
     E("HEmptyNameTagged", [Variant("Nothing", attrs=[[("rename", "")]]), Variant("Some1", [Field("x", I("u8"), [[("rename", "")]]), Field("y", T.Bool, [[("default", None)]])])],
@@ -751,8 +754,9 @@ def gen_item_valid(it, rng, depth):
 
 
 LONG_STRINGS = ["\u5b57" * 22, "\u043a\u043b\u044e\u0447\u2192" * 6, "a\u00e9" * 40, "x" * 63 + "\u20ac" + "tail", "x" * 62 + "\U0001f600" + "y" * 70,
-                "\u00e9" * 31 + "ab\u20ac" * 5, "0123456789" * 13, "\u20ac" * 43 + "a"]
-WRONG = [None, True, LONG_STRINGS[0], LONG_STRINGS[1], "ctl\u0008\u000c\u001b\u007f\u00ad\u200b", {"i": "1"}, {"i": "1000"}, {"n": "-3"}, {"f": "3ff8000000000000"}, "str", [], [{"i": "1"}], {"m": []}, {"m": [["a", None]]},
+                "\u00e9" * 31 + "ab\u20ac" * 5, "0123456789" * 13, "\u20ac" * 43 + "a", "0123456789" * 110, "long \u00e9 " * 30]
+LONG_LIST = [{"i": str(i)} for i in range(70)]
+WRONG = [None, True, LONG_STRINGS[0], LONG_STRINGS[1], LONG_STRINGS[8], LONG_LIST, "ctl\u0008\u000c\u001b\u007f\u00ad\u200b", {"i": "1"}, {"i": "1000"}, {"n": "-3"}, {"f": "3ff8000000000000"}, "str", [], [{"i": "1"}], {"m": []}, {"m": [["a", None]]},
          {"i": "18446744073709551615"}, {"n": "-9223372036854775808"}, "!bad", {"i": "3"}, [{"i": "1"}, {"i": "2"}, {"i": "3"}],
          {"f": "7ff8000000000000"}, [{"f": "7ff0000000000000"}, {"i": "1"}, {"f": "fff0000000000000"}], {"m": [["a", {"f": "7ff8000000000000"}], ["b", [{"f": "7ff0000000000000"}]]]}]
 
@@ -829,7 +833,7 @@ def mutate_once(p, rng, extra_keys=()):
     if op == "range":
         return set_at(p, path, wi(rng.choice([255, 256, 65536, 2**31, 2**32, 2**63, 2**64 - 1, -1, -129, -32769, -2**31 - 1, -2**63, 0, 127, 128, 1000, 3, 7])))
     if op == "str":
-        return set_at(p, path, rng.choice(["", "ab", "!x", "é", "a,b,,c", ",1", "1,,2", ",", "1,x", "256", "Alpha", "alpha", "abé", "ab\U0001f980", "\u0008\u000c\u007f", near_miss(cur, rng),
+        return set_at(p, path, rng.choice(["", "ab", "!x", "é", "a,b,,c", ",1", "1,,2", ",", "1,x", "1,x,3", "1,2,x", "x,1,y", "256", "Alpha", "alpha", "abé", "ab\U0001f980", "\u0008\u000c\u007f", near_miss(cur, rng),
                                            rng.choice(LONG_STRINGS), rng.choice(LONG_STRINGS)]))
     if op == "ws":
         # blank is not empty: whitespace-only segments of comma-separated lists, padded elements, padded scalars
@@ -973,6 +977,25 @@ def gen_payloads(entry, rng, n, max_faults=3):
         bad = lambda: copy.deepcopy(rng.choice(WRONG))
         for new in ([x0, x0] + cur[1:] + [bad()], [x0, x0, x0, bad()] + cur[1:] + [bad()], cur + [x0, bad(), x0], [x0] + cur + [bad(), bad()]):
             out.append((set_at(base, path, copy.deepcopy(new)), -1))
+    # long sequences and wide objects (sizes around powers of two and the small-size thresholds of std), with a fault late
+    seqs = [path for path in positions(base) if isinstance(get_at(base, path), list) and get_at(base, path)]
+    for path in (rng.sample(seqs, 2) if len(seqs) > 2 else seqs):
+        cur = get_at(base, path)
+        n = rng.choice([8, 9, 16, 17, 21, 32, 33, 64, 65, 129])
+        longer = [copy.deepcopy(cur[i % len(cur)]) for i in range(n)]
+        longer[rng.choice([n - 1, n - 2, n // 2])] = copy.deepcopy(rng.choice(WRONG))
+        out.append((set_at(base, path, longer), -1))
+    objs = [path for path in positions(base) if isinstance(get_at(base, path), dict) and "m" in get_at(base, path) and get_at(base, path)["m"]]
+    for path in (rng.sample(objs, 2) if len(objs) > 2 else objs):
+        cur = get_at(base, path)
+        n = rng.choice([9, 17, 21, 33, 65])
+        ms = copy.deepcopy(cur["m"])
+        i = 0
+        while len(ms) < n:
+            k, v = cur["m"][i % len(cur["m"])]
+            ms.insert(rng.randint(0, len(ms)), [k + str(i), copy.deepcopy(v) if rng.random() < 0.8 else copy.deepcopy(rng.choice(WRONG))])
+            i += 1
+        out.append((set_at(base, path, {"m": ms}), -1))
     # fault families that random mutation reaches too rarely
     if contains_json(entry.ty):
         # serde_json::Value positions: their only faults are non-finite floats (order-preserving source only)
